@@ -8,6 +8,7 @@ CONSTANTS
   MaxEof = 3
   SlowSet = {"C", "D", "X"}
   CfgWrite = FALSE
+  NCl = 1
 INVARIANT MonitorQuiet
 INVARIANT OneReceivePath
 INVARIANT LockDiscipline
